@@ -65,7 +65,8 @@ Record recipe := mkRecipe {
   r_feats : list Z;        (* req_features *)
   r_keys : list Z;         (* req_config, flattened *)
   r_rf : Z;                (* req_func: 0 constant True, 1 is_channel,
-                              2 has_ml_scores (result is hashed) *)
+                              2 has_ml_scores (result is hashed),
+                              3 never vetoes, result is hashed *)
   r_extra : list input;    (* what a hashed req_func result depends on *)
   r_uses : list input;     (* what the method was observed to read *)
   r_meth : Z;              (* identity of the method *)
@@ -74,6 +75,9 @@ Record recipe := mkRecipe {
   r_scen : Z;              (* emodulus: 1 case A, 2 case B, 3 case C *)
   r_outs : list Z          (* keys of the dict the method returns *)
 }.
+
+(* the req_func result goes into the hash *)
+Definition rf_hashed (r : recipe) : bool := (r_rf r =? 2) || (r_rf r =? 3).
 
 Inductive val := Raw (id : Z) | Comp (meth out : Z) (args : list (option val)).
 
@@ -359,7 +363,7 @@ Fixpoint read (fuel : nat) (reg : list recipe) (st : state) (f : Z)
                                    | Some v => v | None => 0 end))
                 (r_keys r) in
           let ritems :=
-            if r_rf r =? 2
+            if rf_hashed r
             then [ItReq (map (direct AF reg st1) (r_extra r))] else [] in
           let items := fitems ++ citems ++ ritems in
           let hit :=
@@ -528,7 +532,7 @@ Definition collidable (r0 r : recipe) : bool :=
   memZ (r_name r) (r_outs r0)
   && list_eqb Z.eqb (r_keys r0) (r_keys r)
   && (Z.of_nat (length (r_feats r0)) =? Z.of_nat (length (r_feats r)))
-  && ((r_rf r0 =? 2) && (r_rf r =? 2) || negb (r_rf r0 =? 2) && negb (r_rf r =? 2)).
+  && (rf_hashed r0 && rf_hashed r || negb (rf_hashed r0) && negb (rf_hashed r)).
 
 Definition same_recipe_shape (r0 r : recipe) : bool :=
   list_eqb Z.eqb (r_feats r0) (r_feats r)
